@@ -5,12 +5,13 @@ Line-protocol driver for C04 (cache transparency).  One request = one whole case
 
 graph  : nodes joined by `;` (node id = position):
            P | R/<kind>/<base>/<sel>/<len>/<mode>/<acc>/<invs>/<port> | G/<pValue>/<copies> | C/<pValue>/<cmdValue>
+           | O/<pValue>/<on>/<off> (Boolean) | E/<pValue>/<values> (Enumeration)
          kind: I<l|b><s|u> | M<l|b><s|u>.<lsb>.<msb> | F<l|b> | S | B      sel: - | <node>*<offset>
          mode: WT|WA|NC   acc: RO|WO|RW   invs: - | n,n,..
 device : <memhex>/<noAccess>/<noWrite>/<rejW>[/<rejP>]   ranges `a+l,..` or `-`; rejW `k,..` or `-`;
          rejP `k:m:<junkhex>,..` or `-` (non-atomic rejection of write attempt k)
 ops    : joined by `;`: v/n  s/n/<val>  r/n/<buflen>  w/n/<hex>  e/n  d/n  pr/n/a/l  pw/n/a/<hex>  cc  a/n
-         val: i<int> | f<width>.<bits> | x<hex>
+         val: i<int> | f<width>.<bits> | x<hex> | b0 | b1
 answer : <results joined by ,>#<final image hex>#<access log oldest first>
 -/
 import CamVerif.Model.Cache
@@ -71,6 +72,8 @@ def parseNode (s : String) : Option Node :=
       ← parseAcc acc, ← parseList (·.toNat?) invs ",", ← port.toNat?⟩)
   | ["G", pv, cs] => do pure (.integer (← pv.toNat?) (← parseList (·.toNat?) cs ","))
   | ["C", pv, cv] => do pure (.command (← pv.toNat?) (← cv.toInt?))
+  | ["O", pv, on, off] => do pure (.boolean (← pv.toNat?) (← on.toInt?) (← off.toInt?))
+  | ["E", pv, vals] => do pure (.enumeration (← pv.toNat?) (← parseList (·.toInt?) vals ","))
   | _ => none
 
 def parseRange (s : String) : Option (Int × Nat) :=
@@ -101,6 +104,8 @@ def parseVal (s : String) : Option Val :=
     | [w, b] => do pure (.flt (← w.toNat?) (← b.toNat?))
     | _ => none
   | 'x' :: rest => do pure (.str (← hexToBytes (String.ofList rest)))
+  | ['b', '1'] => some (.bool true)
+  | ['b', '0'] => some (.bool false)
   | _ => none
 
 def parseOp (s : String) : Option Op :=
